@@ -467,7 +467,7 @@ pub fn run(ctx: &Ctx, rep: &mut Report) {
     for uni in ctx.my_universes(total) {
         let mut rng = ctx.rng_for(uni);
         rep.begin_universe(uni);
-        let retentions: &[u64] = &[0, 1, 2, 5];
+        let retentions: &[u64] = &[0, 1, 2, 5, u64::MAX];
         let max_signers = if rng.chance(1, 40) { 32 } else { 8 };
         let mut w = match build_world(&mut rng, retentions, max_signers, 6) {
             Some(w) => w,
